@@ -149,7 +149,11 @@ func runC04(r *ev.Run) {
 			}
 			gs := idsOfMeta(got)
 			if len(gs) != len(got) {
-				rep("meta.duplicate-id", fmt.Sprintf("%s [%s]: duplicate ids in result", kind, desc))
+				var all []uint32
+				for _, x := range got {
+					all = append(all, x.GetId())
+				}
+				rep("meta.duplicate-id", fmt.Sprintf("%s [%s]: duplicate ids in result: %v", kind, desc, all))
 			}
 			for _, id := range removed {
 				if gs[id] {
